@@ -166,7 +166,8 @@ def run(chk):
     batch = []
     for c in res.replays:
         k = c["case"]
-        batch.append((k["enum"], case_variants(k), k["rule"], c["tag"], c["content"], k["flavour"] + "+" + k.get("spelling", "merged"), c["wires"], k))
+        vs = case_variants(k) + [(x["ident"], x["rename"], "newtype" if j % 2 else "unit") for j, x in enumerate(c.get("colliding", []))]
+        batch.append((k["enum"], vs, k["rule"], c["tag"], c["content"], k["flavour"] + "+" + k.get("spelling", "merged"), c["wires"], k))
     if not batch:
         raise ToolError("no cases")
     mid = batch[len(batch) // 2]
